@@ -100,7 +100,7 @@ def make_case(case, seed):
         mapargs = []
         extra += ["-m"]
     elif r < 0.3:
-        mapargs = [f"{ep.sport}:{rng.randrange(1, 65536)}"]
+        mapargs = [f"{ep.sport}:{tcpcap.map_target(rng)}"]
         extra += ["-m"] + mapargs
     feats = [f for f, on in (("retry", s.retry), ("0rtt", bool(s.zero_rtt)), ("ku", bool(qc.info["key_updates_done"])), ("ncid", s.new_cid_at >= 0),
                              ("cncid", s.client_new_cid_at >= 0), ("chsplit", len(s.ch_split) > 0), ("chreorder", tuple(s.ch_order) != tuple(sorted(s.ch_order))),
